@@ -292,6 +292,18 @@ func (fr *Frame) execCall(ins ssa.CallInstruction, cc *ssa.CallCommon) []Term {
 		return fr.execBuiltin(ins, cc, b)
 	}
 	ci := fr.resolveCallee(cc)
+	if fr.topFrame().isInit {
+		if ci.fn != nil && ci.fn.Name() == "init" && ci.fn.Synthetic != "" {
+			return nil // initialisation of an imported package: no effect on this package's globals
+		}
+		if ci.fc == nil && !ci.pure {
+			// initialiser expressions of other package-level variables: assumed not to assign
+			// the globals named in global invariants (those are checked never to be stored
+			// outside init in the loaded packages)
+			ci.pure = true
+			c.assumed["package initialisers do not assign the globals under a global invariant"] = true
+		}
+	}
 	// argument terms, receiver first for invokes
 	var args []Term
 	var argTypes []types.Type
@@ -334,7 +346,29 @@ func (fr *Frame) execCall(ins ssa.CallInstruction, cc *ssa.CallCommon) []Term {
 		res = fr.freshResults(ci.sig.Results(), "r_"+lastSeg(ci.key))
 	}
 	fr.ghostAtCallAfter(ci, ord, args, res)
+	fr.callSpecAssumes(ci)
 	return res
+}
+
+// callSpecAssumes: explicit, listed assumptions anchored after a call (`at call[k] X assume e`).
+func (fr *Frame) callSpecAssumes(ci *calleeInfo) {
+	top := fr.topFrame()
+	if top.fc == nil {
+		return
+	}
+	for _, cs := range top.fc.CallSpecs {
+		if cs.Kind != "assume" || !calleeMatches(ci, cs.Callee) {
+			continue
+		}
+		n := top.callOrd["assume:"+cs.Callee+":"+cs.Src]
+		top.callOrd["assume:"+cs.Callee+":"+cs.Src] = n + 1
+		if cs.Ord >= 0 && cs.Ord != n {
+			continue
+		}
+		env := fr.anchorEnv()
+		fr.c.assume(implies(fr.reach, env.mustBool(cs.E)))
+		fr.c.assumed["explicit assumption in contract of "+shortKey(top.fc.Key)+": "+cs.Src] = true
+	}
 }
 
 func (fr *Frame) callOrdinal(key string) int {
@@ -659,9 +693,8 @@ func (fr *Frame) goSpawn(x *ssa.Go) {
 		args = append(args, fr.val(a))
 		argTypes = append(argTypes, a.Type())
 	}
-	ord := fr.callOrdinal("go:" + ci.key)
-	_ = ord
-	fr.ghostAtCall(ci, fr.callOrdinal(ci.key), "before", args)
+	fr.ghostAtCall(ci, 0, "before", args)
+	defer fr.ghostAtCallAfter(ci, 0, args, nil)
 	if ci.fc != nil {
 		env := fr.calleeEnv(ci, ci.fc, args, argTypes, fr.st)
 		for _, r := range ci.fc.Requires {
@@ -680,7 +713,7 @@ func (fr *Frame) selectHook(x *ssa.Select, idx Term) {}
 
 func (fr *Frame) ghostAtCall(ci *calleeInfo, ord int, when string, args []Term) {
 	top := fr.topFrame()
-	if fr.top != nil || top.fc == nil {
+	if top.fc == nil {
 		return
 	}
 	for _, g := range top.fc.GhostAts {
@@ -690,7 +723,7 @@ func (fr *Frame) ghostAtCall(ci *calleeInfo, ord int, when string, args []Term) 
 		if g.Ord >= 0 && g.Ord != fr.patternOrdinal(g.Callee, when) {
 			continue
 		}
-		env := fr.curEnv()
+		env := fr.anchorEnv()
 		for i, a := range args {
 			env.vars[fmt.Sprintf("arg%d", i)] = Binding{a, nil}
 		}
@@ -702,7 +735,7 @@ func (fr *Frame) ghostAtCall(ci *calleeInfo, ord int, when string, args []Term) 
 
 func (fr *Frame) ghostAtCallAfter(ci *calleeInfo, ord int, args []Term, res []Term) {
 	top := fr.topFrame()
-	if fr.top != nil || top.fc == nil {
+	if top.fc == nil {
 		return
 	}
 	for _, g := range top.fc.GhostAts {
@@ -712,7 +745,7 @@ func (fr *Frame) ghostAtCallAfter(ci *calleeInfo, ord int, args []Term, res []Te
 		if g.Ord >= 0 && g.Ord != fr.patternOrdinal(g.Callee, "after") {
 			continue
 		}
-		env := fr.curEnv()
+		env := fr.anchorEnv()
 		for i, a := range args {
 			env.vars[fmt.Sprintf("arg%d", i)] = Binding{a, nil}
 		}
@@ -732,6 +765,15 @@ func calleeMatches(ci *calleeInfo, pat string) bool {
 		}
 	}
 	return false
+}
+
+// anchorEnv: environment for ghost-at expressions: the top function's parameters and (when the
+// anchor is in the top frame) its locals, evaluated in the current state.
+func (fr *Frame) anchorEnv() *Env {
+	if fr.top == nil {
+		return fr.curEnv()
+	}
+	return fr.top.baseEnv(fr.st)
 }
 
 // patternOrdinal counts, per (pattern, phase), how many matching calls were executed so far.
